@@ -547,8 +547,8 @@ class Render:
             call = "ix(%d, %s)" % (aid, vn(x))
             i = [call, "int(uint8(%s))" % call, "int(myInt(%s))" % call, "(%s)" % call, "-(-%s)" % call, "%s&3" % call,
                  "idxs[uint8(%s)]" % call, "any(%s).(int)" % call, "func() int { return %s }()" % call,
-                 "[1]int{%s}[0]" % call, "mkP(%s).a" % call, "*pint(%s)" % call, "int([]byte(sb(%s))[0])" % call,
-                 "[]byte(sb(%s))[0]" % call][wi]
+                 "[1]int{%s}[0]" % call, "mkP(%s).a" % call, "*pint(%s)" % call, "int([]uint8(sb(%s))[0])" % call,
+                 "[]uint8(sb(%s))[0]" % call][wi]
             pgc = "pg(%d, %s)" % (aid, vn(x))
             ptr = [pgc, "(%s)" % pgc, "(*int)(%s)" % pgc, "(*int)(ip(%s))" % pgc][wb] if lv == 1 else None
             psc = "ps(%d)" % aid
@@ -707,7 +707,8 @@ def render(g):
 # --------------------------------------------------------------------------------------
 
 _MARK = re.compile(r"(?<![\w$.])(at|ix|tr|pg|ps|push|runfs|cl|cnd|cnq)\((\d+)[,)]")
-_TMPDEF = re.compile(r"(?<![\w$.])(_slice|_index|_struct|_ptr|_val)(?:\$\d+)? = ")
+# a desugaring temporary is a STATEMENT `tmp = operand;` (temporaries of translateExpr live inside expressions)
+_TMPDEF = re.compile(r"^(_slice|_index|_struct|_ptr|_val)(?:\$\d+)? = ")
 _LABEL_LINE = re.compile(r"^([^\s:(){};=]+):$")
 
 
@@ -845,6 +846,8 @@ def js_skeleton(fn, labels):
 
 THEOREMS = ["direct_correct", "direct_unique", "direct_correct_ctx", "interp_sound_js", "drivers_agree",
             "desugar_once", "desugar_incdec_once", "spec_trace", "desugar_trace", "naive_rewrite_wrong",
+            "kept_in_place", "kept_in_place_pure", "everything_else_hoisted", "desugar_residue_pure",
+            "conversion_kept_in_place_wrong", "conversion_kept_in_place_wrong'",
             "names_distinct_plain", "names_distinct_plain_seeded", "names_fresh_plain", "console_was_not_reserved",
             "encodeIdent_inj_utf8", "names_distinct_plain_valid", "renderInj_ascii", "names_distinct_plain_ascii", "render_clash",
             "encodeIdent_ascii_id", "tuple_assign_counterexample", "tuple_assign_partial"]
@@ -1335,7 +1338,7 @@ def run(tier, seed):
     chk.rule = ("programs: a term of GV.Ctrl (if/else-if chains, for with optional cond/post, labelled+unlabelled break/continue, "
                 "switch with fallthrough, blocks, return, calls; depth<=5, <=40 statements/function, <=5 functions) over action "
                 "tables (plain / op-assign and inc-dec on arr[f()], *g(), m[k()], s.x[i()], p().x[i()], ident / swap / rotate / "
-                "tuple call / evaluation-order forms with tracing calls / closures capturing per-iteration variables / 4-deep "
+                "(every operator; the side-effecting index / pointer / struct-base operand under 14 + 5 wrappers: conversions, parens, unary, binary, index-of-index, type assertion, literals called in place, selector / deref of a call) / tuple call / evaluation-order forms with tracing calls / closures capturing per-iteration variables / 4-deep "
                 "shadowing), identifiers drawn from JS reserved words, globals, compiler temp names and non-ASCII names; rendered "
                 "to Go. Non-trivial = the program prints a trace that depends on control flow (every program does). "
                 "names: disciplined scope-stack histories of newVariable/nestedFunctionContext requests, minify off.")
